@@ -301,6 +301,7 @@ func (t *c15Pre) String() string {
 
 // a declaration the generator put into a body
 type c15Decl struct {
+	start int    // offset of the '<' of the tag
 	end   int    // offset just after the closing '>' of the tag
 	label string // declared label
 	real  bool   // false: decoy that must NOT be noticed (comment, missing pragma, …)
@@ -410,9 +411,10 @@ func c15MakeBody(r *rand.Rand, cs c15cs, site string, n int, declAt int) c15Body
 		other = "koi8-r"
 	}
 	add := func(tag string, label string, real bool) {
+		start := out.Len()
 		out.WriteString(encode(tag))
 		if !u16 {
-			b.decls = append(b.decls, c15Decl{end: out.Len(), label: label, real: real})
+			b.decls = append(b.decls, c15Decl{start: start, end: out.Len(), label: label, real: real})
 		}
 	}
 	switch site {
